@@ -137,7 +137,9 @@ struct Runner
             auto take = [&](auto&& res) { o.has = res.has_value(); if (o.has) o.value = res.value().get_value().h; };
             auto with_buffer = [&](auto& strm)
             {
-                if (buffer == 0) { ctpg::buffers::string_view_buffer b(sv); base = sv.data(); take(p.parse(opts, b, strm)); }
+                // with default options the shorter public overloads are used as well: parse(buffer, stream) here, parse(buffer) below
+                const bool dflt = in.skip_ws && in.skip_nl && !verbose;
+                if (buffer == 0) { ctpg::buffers::string_view_buffer b(sv); base = sv.data(); if (dflt && (in.text.size() % 2)) take(p.parse(b, strm)); else take(p.parse(opts, b, strm)); }
                 else if (buffer == 1)
                 {
                     // a string_buffer is a value: the parse runs on a copy of a moved buffer whose originals have been overwritten and destroyed
@@ -155,7 +157,11 @@ struct Runner
                     o.any_deref = b.any_deref; o.max_deref = b.max_deref; o.derefs = b.derefs;
                 }
             };
-            if (stream == 0) { ctpg::utils::no_stream ns; with_buffer(ns); }
+            if (stream == 0 && buffer == 0 && in.skip_ws && in.skip_nl && !verbose && (in.text.size() % 3 == 0))
+            {   // parse(buffer): no stream argument at all
+                ctpg::buffers::string_view_buffer b(sv); base = sv.data(); take(p.parse(b));
+            }
+            else if (stream == 0) { ctpg::utils::no_stream ns; with_buffer(ns); }
             else if (stream == 1) { std::ostringstream os; with_buffer(os); o.err = os.str(); }
             else { UserStream us; with_buffer(us); o.err = us.os.str(); }
         }
@@ -238,6 +244,7 @@ static void labels_for(const Grammar& g, const Prepared& pr, Stats& st, const GC
     st.label("strategy:" + strategy.substr(0, strategy.find('+')));
     if (strategy.find("seed:") == 0) st.label("strategy:seed(any)");
     st.label(c.tmpl == 0 ? "template:T36" : c.tmpl == 1 ? "template:T20" : "template:TK");
+    { size_t mx = 0; for (auto& r : g.rules) mx = std::max(mx, r.rhs.size()); if (mx >= 5) st.label("rule-arity>=5"); }
     if (pr.an.left_rec) st.label("left-rec");
     if (pr.an.right_rec) st.label("right-rec");
     if (pr.an.mutual_rec) st.label("mutual-left-rec");
